@@ -1,1 +1,63 @@
-From BV Require Import Base Status Rollup Runner.
+(* C01 — Run verdict: no false green, no false red.  Statements only. *)
+From BV Require Import Base Status Rollup Runner RunnerVerdict RunnerSteps RunnerQuiet RunnerEq.
+From BVGen Require Import StatusTable.
+
+(* "something went wrong": a step call that fails an assertion, raises, is interrupted or is
+   pending outside @wip; an undefined step; a raising hook; a raising cleanup; an abort. *)
+Theorem verdict_iff_bad_event :
+  forall cfg fs rs verdict ab evs,
+    run_model cfg fs = (rs, verdict, ab, evs) ->
+    verdict = existsb bad evs.
+Proof. exact verdict_iff_bad. Qed.
+Print Assumptions verdict_iff_bad_event.
+
+Theorem all_pass_is_green :
+  forall cfg fs rs verdict ab evs,
+    run_model cfg fs = (rs, verdict, ab, evs) ->
+    existsb bad evs = false -> verdict = false.
+Proof. exact (fun cfg fs rs v ab evs H Hb => eq_trans (verdict_iff_bad cfg fs rs v ab evs H) Hb). Qed.
+Print Assumptions all_pass_is_green.
+
+Theorem something_wrong_is_red :
+  forall cfg fs rs verdict ab evs e,
+    run_model cfg fs = (rs, verdict, ab, evs) ->
+    In e evs -> bad e = true -> verdict = true.
+Proof.
+  exact (fun cfg fs rs v ab evs e H Hin Hb =>
+           eq_trans (verdict_iff_bad cfg fs rs v ab evs H)
+                    (proj2 (existsb_exists bad evs) (ex_intro _ e (conj Hin Hb)))).
+Qed.
+Print Assumptions something_wrong_is_red.
+
+(* a de-selected scenario contributes no event besides its announcement, and cannot fail *)
+Theorem deselected_scenario_cannot_fail :
+  forall cfg st id all_steps oe eff own,
+    c_expr cfg eff = false ->
+    exists res ev,
+      run_scenario cfg st id all_steps oe eff own = (st, res, false, ev) /\
+      existsb bad ev = false.
+Proof. exact run_scenario_unselected_no_bad. Qed.
+Print Assumptions deselected_scenario_cannot_fail.
+
+(* the segment lemma behind the theorem, for every level of the tree *)
+Theorem feature_failed_iff :
+  forall cfg st f st' res fld ev,
+    run_feature cfg st f = (st', res, fld, ev) ->
+    (fld = true -> existsb lbad ev || existsb gbad ev = true) /\
+    (existsb lbad ev = true -> fld = true) /\
+    aborted st' = aborted st || existsb abort_ev ev.
+Proof. exact run_feature_ok. Qed.
+Print Assumptions feature_failed_iff.
+
+(* non-vacuity: concrete programs on both sides of the equivalence *)
+Definition ex_cfg : cfgdata :=
+  mkCfgData false false true TTrue [HBeforeAll; HAfterScenario] [] [] 99 false.
+Definition ex_feature (k : skind) : feature :=
+  mkFeature 1 [] None [FItem (SScen (mkScen 2 [] [mkStep KPass 1; mkStep k 2; mkStep KPass 3]))].
+
+Example red_run : snd (fst (fst (run_case (ex_cfg, [ex_feature KFail])))) = true.
+Proof. vm_compute. reflexivity. Qed.
+Example green_run : snd (fst (fst (run_case (ex_cfg, [ex_feature KPass])))) = false.
+Proof. vm_compute. reflexivity. Qed.
+Example abort_only_run : snd (fst (fst (run_case (ex_cfg, [ex_feature KAbort])))) = true.
+Proof. vm_compute. reflexivity. Qed.
